@@ -491,17 +491,21 @@ func init() {
 			"X5 rundefer runs the deferred function between pushDefer and a popDefer registered with Go's defer and re-raises through maybeRepanic only while panicking; every installed function is taken from run.InstallDefer once and registered with Go's own defer (LIFO order and execution during panics are then Go's); Comp.Defer evaluates the function value and arguments when the statement executes, copies them when settable, never inside the installed closure; code with defer selects the flag-aware executor; " +
 			"X6 pushDefer/popDefer save and restore DeferOfFun and the defer flag position by position, and every flag pushDefer raises with a constant is lowered by popDefer; O ownership of Run.PanicFun/Panic/DeferOfFun/InstallDefer; S1 statement protocol of the defer/return statements. " +
 			"E3 the function value and the arguments of a defer statement, evaluated when the statement runs, are detached from the variables they were read from (a settable value is replaced by a copy) before they are kept for the later call. " +
-			"Not decided: event-by-event order for nested panics, modification of named results.",
+			"F2p no keyed literal of the code buffer (fast.Code) or of the signal record (base.Signals) that names only some fields is stored into existing storage (the WithDefers flag, a pending signal would be cleared); R3o callRecover gives up when Run.DeferOfFun != Run.PanicFun and pushDefer records the panicking frame under the bare condition `panicking`; N1d the release of a function frame is never deferred. Not decided: event-by-event order for nested panics, modification of named results.",
 		Assumptions: []string{"Go's own defer/recover for the closures registered with defer", "reflect.Value.Call"},
 		Rules: []func(*Ctx){func(c *Ctx) {
 			ruleRecoverGuards(c, "X4-recover-guards")
 			ruleDeferProtocol(c, "X5-defer-protocol")
 			ruleSaveRestore(c, "X6-save-restore")
+			rulePartialOverwrite(c, "F2p-partial-overwrite", "fast", []string{"base.Signals", "fast.Code"})
+			ruleRecoverOwner(c, "R3o-recover-owner")
+			ruleFreeNotDeferred(c, "N1d-free-not-deferred")
 			ruleDetachedOperands(c, "E3-detached-operands", "fast.Comp.Defer")
 			runStateOwnership(c)
 			ruleStmtProtocol(c, "fast", []string{"statement.go", "code.go", "builtin.go"}, "S1-stmt-protocol")
 		}},
 		Mutants: []Mutant{
+			{Name: "truncate-forgets-defer-flag", File: "fast/code.go", Old: "\tif len(code.List) > n {\n\t\tcode.List = code.List[0:n]\n\t}\n\tif len(code.DebugPos) > n {\n\t\tcode.DebugPos = code.DebugPos[0:n]\n\t}\n", New: "\tif len(code.List) > n {\n\t\t*code = Code{List: code.List[0:n], DebugPos: code.DebugPos[0:n]}\n\t}\n"},
 			{Name: "popdefer-leaves-start-flag-set", File: "fast/code.go", Old: "\trun.DeferOfFun = deferOf\n\trun.ExecFlags.SetStartDefer(false)\n", New: "\trun.DeferOfFun = deferOf\n"},
 			{Name: "recover-frame-check-behind-debug", File: "fast/builtin.go", Old: "\tif run.DeferOfFun != run.PanicFun {\n\t\tif debug {", New: "\tif debug && run.DeferOfFun != run.PanicFun {\n\t\tif debug {", Canary: true},
 			{Name: "recover-outside-defer-allowed", File: "fast/builtin.go", Old: "\tif !run.ExecFlags.IsDefer() {\n\t\tif debug {\n\t\t\toutput.Debugf(\"recover() not directly inside a defer\")\n\t\t}\n\t\treturn nilInterface\n\t}\n", New: ""},
@@ -518,16 +522,23 @@ func init() {
 		Title: "A panic escaping an evaluation at any point leaves later evaluations unaffected",
 		Explanation: "Decided: X6 save/restore correspondence: reExecWithFlags registers `defer restore(run, IsDefer(), run.Interrupt, run.CurrEnv)` before it modifies any of them, with each argument a read at entry of exactly the state restore writes back from the matching parameter; restore also clears the synchronous signal; pushDefer/popDefer correspond position by position and popDefer is registered with defer (X5), maybeRepanic is guarded by the frame's own panicking flag; " +
 			"RunExpr/DebugExpr wrap the evaluation in `defer run.setCurrEnv(run.setCurrEnv(env))`; every executor entry clears a stale synchronous signal and prepareEnv clears both signals before each evaluation; O ownership: PanicFun, Panic, DeferOfFun, InstallDefer, Interrupt, CurrEnv, DebugDepth are written only by the enumerated executor/allocator/debugger functions. " +
-			"X8 option bits cleared for one forced evaluation (`:expr` in macro-expand-only or collecting mode) are restored by a deferred function registered before the evaluation starts, in both interpreters. Not decided: state held outside Run (frames of an unwound exec are simply dropped), side effects of the aborted code, option bits toggled by the REPL driver.",
+			"X8 option bits cleared for one forced evaluation (`:expr` in macro-expand-only or collecting mode) are restored by a deferred function registered before the evaluation starts, in both interpreters. X9 a field saved in a local and restored in a deferred closure is restored by a direct statement of that closure, before any return in it (EvalReader, EvalFile, Repl: also on the panicking path); N1d the release of a function frame is never deferred (it would be recycled while the panic that started in it unwinds); R3o / F2p as in C07. Not decided: state held outside Run (frames of an unwound exec are simply dropped), side effects of the aborted code, option bits toggled by the REPL driver.",
 		Assumptions: []string{"Go runs deferred calls during panics"},
 		Rules: []func(*Ctx){func(c *Ctx) {
 			ruleSaveRestore(c, "X6-save-restore")
 			ruleOptionRestore(c, "X8-option-restore")
 			ruleExactOptionRestore(c, "X8b-exact-option-restore")
 			ruleDeferProtocol(c, "X5-defer-protocol")
+			rulePartialOverwrite(c, "F2p-partial-overwrite", "fast", []string{"base.Signals", "fast.Code"})
+			ruleRecoverOwner(c, "R3o-recover-owner")
+			ruleFreeNotDeferred(c, "N1d-free-not-deferred")
+			ruleUnconditionalRestore(c, "X9-unconditional-restore", "fast", "classic", "base")
 			runStateOwnership(c)
 		}},
 		Mutants: []Mutant{
+			{Name: "frame-release-deferred", File: "fast/func0ret0.go", Old: "\t\t\tenv := newEnv4Func(env, nbind, nintbind, debugC)\n\t\t\t// execute the body\n\t\t\tfuncbody(env)\n\n\t\t\tenv.freeEnv4Func()\n", New: "\t\t\tenv := newEnv4Func(env, nbind, nintbind, debugC)\n\t\t\tdefer env.freeEnv4Func()\n\t\t\t// execute the body\n\t\t\tfuncbody(env)\n"},
+			{Name: "panicking-frame-recorded-once", File: "fast/code.go", Old: "\tif panicking {\n\t\tg.PanicFun = deferOf", New: "\tif panicking && g.PanicFun == nil {\n\t\tg.PanicFun = deferOf"},
+			{Name: "evalreader-restores-only-without-panic", File: "fast/interpreter.go", Old: "\t\tg.Readline = savein\n\t\tg.Options = saveopts\n\t\tif rec := recover(); rec != nil {", New: "\t\tif rec := recover(); rec == nil {\n\t\t\tg.Readline = savein\n\t\t\tg.Options = saveopts\n\t\t} else {"},
 			{Name: "forced-eval-options-restored-only-on-success", File: "fast/repl.go", Old: "\tif toenable := cmdOptForceEval(g, opt); toenable != 0 {\n\t\tdefer func() {\n\t\t\tg.Options |= toenable\n\t\t}()\n\t}\n", New: "\ttoenable := cmdOptForceEval(g, opt)\n\tdefer func() {\n\t\tif !trap {\n\t\t\tg.Options |= toenable\n\t\t}\n\t}()\n"},
 			{Name: "restore-saves-after-modification", File: "fast/code.go", Old: "\tdefer restore(run, run.ExecFlags.IsDefer(), run.Interrupt, caller)\n\tef.SetDefer(ef.StartDefer())\n", New: "\tef.SetDefer(ef.StartDefer())\n\tdefer restore(run, run.ExecFlags.IsDefer(), run.Interrupt, caller)\n", Canary: true},
 			{Name: "restore-drops-currenv", File: "fast/code.go", Old: "\trun.Interrupt = interrupt\n\trun.CurrEnv = caller\n", New: "\trun.Interrupt = interrupt\n"},
@@ -542,15 +553,19 @@ func init() {
 		Title: "Interrupting running code stops it promptly and leaves the interpreter usable",
 		Explanation: "Decided: X7 poll bound: in exec and reExecWithFlags every loop that dispatches statements reads run.Signals on every iteration, and the number of statement dispatches between two polls is a constant computed and reported by the checker (15 today; the rule requires <= 64); before the unbounded loop run.Interrupt is spinInterrupt so jumping statements come back to the poll; Interp.Interrupt reaches a store to Signals.Async; the signal is SigInterrupt unless both debugger options are set; " +
 			"applyAsyncSignal consumes the signal (X7c: clears it unconditionally before it acts, so that deferred functions run by the unwinding are not aborted too) and panics with SigInterrupt; restore re-raises a pending interrupt in the caller; spinInterrupt applies pending asynchronous signals; X6 restore/prepareEnv leave Run clean for the next evaluation (shared with C12). " +
-			"Not decided: latency in wall-clock terms, code blocked inside compiled functions or channel operations.",
+			"F2p the signal record of a Run is never overwritten by a literal that names only Sync (a pending Async interrupt would be lost); R3o recover() (which also sees the interrupt panic) gives up unless the deferred call belongs to the panicking frame. Not decided: latency in wall-clock terms, code blocked inside compiled functions or channel operations.",
 		Assumptions: []string{"every statement closure returns in bounded time unless it calls compiled code"},
 		Rules: []func(*Ctx){func(c *Ctx) {
 			ruleInterruptPolling(c, "X7-interrupt-polling")
 			ruleConsumeBeforeRaise(c, "X7c-consume-before-raise")
 			ruleRunRegistered(c, "X3r-run-registered")
 			ruleSaveRestore(c, "X6-save-restore")
+			rulePartialOverwrite(c, "F2p-partial-overwrite", "fast", []string{"base.Signals", "fast.Code"})
+			ruleRecoverOwner(c, "R3o-recover-owner")
 		}},
 		Mutants: []Mutant{
+			{Name: "multi-value-return-wipes-pending-signal", File: "fast/statement.go", Old: "\t\tg := env.Run\n\t\tg.Signals.Sync = base.SigReturn\n\t\treturn g.Interrupt, env\n\t}, node.Pos())\n}", New: "\t\tg := env.Run\n\t\tg.Signals = base.Signals{Sync: base.SigReturn}\n\t\treturn g.Interrupt, env\n\t}, node.Pos())\n}", Nth: 2},
+			{Name: "recover-owner-test-weakened", File: "fast/builtin.go", Old: "if run.DeferOfFun != run.PanicFun {", New: "if run.DeferOfFun == nil {"},
 			{Name: "unbounded-loop-never-polls", File: "fast/code.go", Old: "\t\t\tstmt, env = stmt(env)\n\n\t\t\tif !run.Signals.IsEmpty() {\n\t\t\t\tbreak\n\t\t\t}\n", New: "\t\t\tstmt, env = stmt(env)\n\n\t\t\tif stmt == nil {\n\t\t\t\tbreak\n\t\t\t}\n", Canary: true},
 			{Name: "interrupt-not-stored", File: "fast/code.go", Old: "\trun.Signals.Async = sig\n}", New: "\t_ = sig\n}", Canary: true},
 			{Name: "async-signal-cleared-after-the-panic", File: "fast/code.go", Old: "func (run *Run) applyAsyncSignal(sig base.Signal) {\n\trun.Signals.Async = base.SigNone\n\tswitch sig {", New: "func (run *Run) applyAsyncSignal(sig base.Signal) {\n\tdefer func() { run.Signals.Async = base.SigNone }()\n\tswitch sig {"},
@@ -599,7 +614,7 @@ func init() {
 			"U sibling uniformity, S1 statement protocol and A2 accessor category over the channel specialisations (Send, Recv, select) in channel.go / select.go. " +
 			"H2 no statement or expression closure assigns to a variable of its compile function: compiled closures are shared by every goroutine that executes the same code (known finding F45: the call-site caches cachedfun/cachedfunv of five call compilers, a data race the race detector confirms); " +
 			"E3 the function value and the arguments of a go statement are detached from the variables they were read from before the goroutine starts (found F37: `go f(p); p.a = 50` let the goroutine see 50). " +
-			"E5 a go statement invokes the function value itself: it reads Call.Ellipsis and uses CallSlice for f(a, xs...) (found F54). S5 every compiler of a send value (statement and select case) converts a constant to the element type; N7 the Value of a constant handed to reflect is tested with IsValid (found F55). Not decided: every schedule-dependent outcome, races inside user data, channel semantics (delegated to reflect.Send/Recv/Select).",
+			"E5 a go statement invokes the function value itself: it reads Call.Ellipsis and uses CallSlice for f(a, xs...) (found F54). S5 every compiler of a send value (statement and select case) converts a constant to the element type; N7 the Value of a constant handed to reflect is tested with IsValid (found F55). D6 every channel type assertion of the specialised send / receive closures has the direction its flag selects (<-chan T under recvonly, chan<- T under sendonly, chan T otherwise); B6 the channel, range and select compilers never use the non-blocking TryRecv / TrySend; S2 the ok variable of a receive in select reads the recvOK slot. Not decided: every schedule-dependent outcome, races inside user data, channel semantics (delegated to reflect.Send/Recv/Select).",
 		Assumptions: []string{"reflect.Value.Send/Recv/Select implement Go's channel semantics", "sync/atomic semantics"},
 		Rules: []func(*Ctx){func(c *Ctx) {
 			ruleLockSet(c, "fast", "IrGlobals", "gls", "lock", "X1-lock-set")
@@ -610,6 +625,9 @@ func init() {
 			ruleGoAttachesToOwnFrame(c, "X3g-go-own-frame")
 			ruleDetachedOperands(c, "E3-detached-operands", "fast.Comp.Go")
 			ruleSendValueConversion(c, "S5-send-value-conversion")
+			ruleSelectRecvOK(c, "S2-select-recvok")
+			ruleBlockingChannelOps(c, "B6-blocking-channel-ops", []string{"channel.go", "range.go", "select.go"})
+			ruleChanDirAssertion(c, "D6-chan-dir-assertion", []string{"channel.go", "select.go", "range.go"})
 			ruleConstantNilValue(c, "N7-constant-nil-value", nil)
 			ruleEllipsisCallSlice(c, "E5-ellipsis-callslice")
 			ruleUniformity(c, "fast", []string{"channel.go", "select.go"}, "U-uniform")
@@ -618,6 +636,9 @@ func init() {
 			c.Floor("U-uniform", 55)
 		}},
 		Mutants: []Mutant{
+			{Name: "recvonly-arm-asserts-bidirectional", File: "fast/channel.go", Old: "channel := channelfun(env).Interface().(<-chan uint8)\n\t\t\t\t\treturn <-channel", New: "channel := channelfun(env).Interface().(chan uint8)\n\t\t\t\t\treturn <-channel", Nth: 1},
+			{Name: "range-over-channel-polls", File: "fast/range.go", Old: "_, ok := env.Vals[idxchan].Recv()", New: "_, ok := env.Vals[idxchan].TryRecv()"},
+			{Name: "select-ok-reads-value-slot", File: "fast/select.go", Old: "\t\t\t\tidx := bindok.Desc.Index()\n\t\t\t\tc.SetPlace(place, token.ASSIGN, c.exprBool(", New: "\t\t\t\tidx := bind.Desc.Index()\n\t\t\t\tc.SetPlace(place, token.ASSIGN, c.exprBool("},
 			{Name: "select-send-case-skips-constant-conversion", File: "fast/select.go", Old: "\t\tif esend.Const() {\n\t\t\t// as Comp.Send does: an untyped constant, or nil, takes the element type\n\t\t\tesend.ConstTo(texpected)\n\t\t} else if tactual == nil || !tactual.AssignableTo(texpected) {", New: "\t\tif tactual == nil || !tactual.AssignableTo(texpected) {"},
 			{Name: "send-of-nil-constant-unchecked", File: "fast/channel.go", Old: "\t\tif !v.IsValid() {\n\t\t\t// sending the constant nil: it was converted to telem above\n\t\t\tv = xr.Zero(telem)\n\t\t}\n", New: ""},
 			{Name: "go-statement-ignores-ellipsis", File: "fast/statement.go", Old: "\t\t\tif ellipsis {\n\t\t\t\t// go f(a, xs...) passes xs as the variadic slice\n\t\t\t\tfunv.CallSlice(argv)\n\t\t\t} else {\n\t\t\t\tfunv.Call(argv)\n\t\t\t}\n", New: "\t\t\tfunv.Call(argv)\n"},
@@ -756,7 +777,7 @@ func init() {
 		Title: "Conversions between basic, string and byte/rune slice types match Go",
 		Explanation: "Decided (the structural part): V1 a conversion is compiled only after the admission chain (identical types, same reflect type, nil to nillable, ConvertibleTo) and is otherwise rejected before execution; no conversion closure is created before the chain; Comp.Converter rejects non-convertible pairs first; U/A2 the 17 per-kind conversion closures of Comp.convert are uniform and extract the result with the accessor of their kind; " +
 			"V2 untyped.Lit.Convert has an arm for every basic kind plus Interface and Slice, rejects what no arm converted, and converts the result to exactly the requested reflect type; S1 a conversion to a slice type is never folded into a compile-time constant (every EvalConst / ConstTo(target) / compile-time convert() site of Comp.convert is guarded by target.Kind() != Slice), so []byte(\"abc\") allocates at each execution; V3 every alternative of every admitting clause of the type checker's convertibleTo constrains both the operand's type and the target type (a one-sided alternative admits conversions to arbitrary types); K2 the 64-bit result of constant.Int64Val / Uint64Val is never narrowed (int32, rune, int ...) outside a two-sided range check (integer constant to string). The oracle for values is reflect.Value.Convert (trusted to implement Go's conversion). " +
-			"Not decided: the truth table of ConvertibleTo against the spec, value results, typed-constant overflow.",
+			"Z3 a chain of tests on a category variable does not also test the kind it was computed from (cto == Int || kto == Uint skips the overflow check for uint8..uintptr); T7 the reflect shortcut of xtype.ConvertibleTo / AssignableTo / Implements keeps the direction receiver -> parameter. Not decided: the truth table of ConvertibleTo against the spec, value results, typed-constant overflow.",
 		Assumptions: []string{"reflect.Value.Convert implements Go conversions for the kinds involved", "xreflect.Type.ConvertibleTo"},
 		Rules: []func(*Ctx){func(c *Ctx) {
 			ruleConversionGate(c, "V1-conversion-gate")
@@ -764,6 +785,8 @@ func init() {
 			ruleSliceConversionNotFolded(c, "S1-slice-not-folded")
 			ruleTwoSidedAdmission(c, "V3-two-sided-admission")
 			ruleNoNarrowing(c, "K2-no-narrowing")
+			ruleCategoryChain(c, "Z3-category-chain", "base/untyped", "fast", "base/reflect")
+			ruleShortcutDirection(c, "T7-shortcut-direction")
 			ruleConstantExactness(c, "EX1-exactness")
 			ruleRealPartNeedsZeroImag(c, "K4-real-part-needs-zero-imag")
 			ruleUniformity(c, "fast", []string{"convert.go"}, "U-uniform")
@@ -771,6 +794,8 @@ func init() {
 			c.Floor("U-uniform", 12)
 		}},
 		Mutants: []Mutant{
+			{Name: "narrowing-check-skipped-for-small-unsigned", File: "base/untyped/lit.go", Old: "if cto == r.Int || cto == r.Uint {", New: "if cto == r.Int || kto == r.Uint {"},
+			{Name: "convertible-shortcut-reversed", File: "xreflect/type.go", Old: "rt.ConvertibleTo(ru)", New: "ru.ConvertibleTo(rt)"},
 			{Name: "unsigned-target-read-as-signed-first", File: "base/untyped/lit.go", Old: "\t\tcase r.Uint:\n\t\t\tn, exact = constant.Uint64Val(src)\n", New: "\t\tcase r.Uint:\n\t\t\tn, exact = constant.Int64Val(src)\n\t\t\tif !exact {\n\t\t\t\tn, exact = constant.Uint64Val(src)\n\t\t\t}\n"},
 			{Name: "complex-to-real-takes-real-part", File: "base/reflect/reflect.go", Old: "\t\t} else if IsCategory(k, r.Complex128) {\n\t\t\tif IsCategory(k, r.Int, r.Uint, r.Float64) {", New: "\t\t} else if IsCategory(k, r.Complex128) {\n\t\t\tif IsCategory(kto, r.Int, r.Uint, r.Float64) {"},
 			{Name: "gate-falls-through", File: "fast/convert.go", Old: "\t} else {\n\t\tc.Errorf(\"cannot convert %v to %v: %v\", e.Type, t, nodeOpt)\n\t\treturn nil\n\t}", New: "\t} else {\n\t\tc.Warnf(\"cannot convert %v to %v: %v\", e.Type, t, nodeOpt)\n\t}", Canary: true},
@@ -788,19 +813,22 @@ func init() {
 		Title: "Untyped constant expressions are exact and agree with Go's constant arithmetic",
 		Explanation: "Decided: P1 operator pass-through: BinaryExprUntyped / ShiftUntyped / UnaryExprUntyped hand go/constant the node's own operator (through tokenWithoutAssign) with the operands in order; untyped division truncates (QUO_ASSIGN) exactly when both operands are of Int or Rune kind; && / || compute the matching boolean operation; the compound-assignment token tables pair each X_ASSIGN with X; " +
 			"EX1 exactness: a constant.Value reaches an integer-category result only through exact extraction, never through constant.Float64Val, and every conversion to an integer kind is followed by a convert-back-and-compare overflow / truncation check; K1 every path of every function of base/untyped that uses constant.Int64Val / Uint64Val is enumerated (exact flag and target category concretely) and the first result, undefined when the flag is false, never flows into a result of the function on such a path; K2 such a 64-bit result is never narrowed outside a two-sided range check; F1 a constant converted to *big.Int / *big.Rat / *big.Float is copied into a fresh local at each execution and the compile-time value never escapes the closure. " +
-			"K7 real() and imag() of an untyped constant are built with the constant kind untyped.Float, not a kind computed from the value (found F57). Not decided: go/constant's arithmetic, precision beyond what go/constant keeps, exactness of *big.Float conversions.",
+			"K7 real() and imag() of an untyped constant are built with the constant kind untyped.Float, not a kind computed from the value (found F57). K2 also: an exact 64-bit value (Int64Val, Uint64Val, Lit.Int64, Lit.Uint64) changes signedness only inside a range check; K8 no *big.Float of a constant gets a hand-set precision or rounding mode. Not decided: go/constant's arithmetic, precision beyond what go/constant keeps, exactness of *big.Float conversions.",
 		Assumptions: []string{"go/constant implements exact constant arithmetic"},
 		Rules: []func(*Ctx){func(c *Ctx) {
 			ruleUntypedOperators(c, "P1-operator-passthrough")
 			ruleConstantExactness(c, "EX1-exactness")
 			ruleInexactUndefined(c, "K1-inexact-undefined")
 			ruleNoNarrowing(c, "K2-no-narrowing")
+			ruleNoPrecisionCap(c, "K8-no-precision-cap")
 			ruleFreshBigValues(c, "F1-fresh-big")
 			ruleUnaryKeepsKind(c, "K5-unary-keeps-kind")
 			ruleConstRepetitionPairing(c, "K6-const-repetition-pairing")
 			ruleRealImagUntypedKind(c, "K7-real-imag-untyped-kind")
 		}},
 		Mutants: []Mutant{
+			{Name: "bigint-uint64-through-int64", File: "base/untyped/lit.go", Old: "ret = b.SetUint64(n)", New: "ret = b.SetInt64(int64(n))"},
+			{Name: "bigfloat-precision-capped", File: "base/untyped/lit.go", Old: "ret = b.SetRat(r)", New: "ret = b.SetPrec(512).SetRat(r)"},
 			{Name: "real-of-untyped-takes-representation-kind", File: "fast/builtin.go", Old: "arg = untyped.MakeLit(untyped.Float, constant.ToFloat(val), &c.Universe.BasicTypes)", New: "arg = untyped.MakeLit(untyped.MakeKind(val.Kind()), val, &c.Universe.BasicTypes)"},
 			{Name: "unary-result-kind-not-from-operand", File: "fast/unary.go", Old: "return c.exprUntypedLit(xlit.Kind, ret)", New: "return c.exprUntypedLit(UntypedLit{Val: ret}.Kind, ret)"},
 			{Name: "const-repetition-keeps-earlier-type", File: "fast/declaration.go", Old: "\t\t\t\tdefaultType = valueSpec.Type\n", New: "\t\t\t\tif valueSpec.Type != nil {\n\t\t\t\t\tdefaultType = valueSpec.Type\n\t\t\t\t}\n"},
